@@ -124,7 +124,13 @@ def main(argv):
         return h.hexdigest()
 
     if update_baseline:
-        baseline_all[pid] = sorted(seen)
+        # a unit that did not run to completion on this tree keeps its recorded obligations (they show up as missing): updating the baseline must never
+        # silently drop what a broken unit used to prove
+        not_ok = {u_ for u_, st_ in unit_status.items() if st_.get("status") != "ok"}
+        kept = {full for full in baseline if full.split("::")[0] in not_ok}
+        for u_ in sorted(not_ok):
+            print(f"BASELINE-WARNING unit {u_} status={unit_status[u_].get('status')}: {str(unit_status[u_].get('reason'))[:160]}")
+        baseline_all[pid] = sorted(seen | kept)
         baseline_all.setdefault("__source_digest__", {})[pid] = src_digest()
         with open(os.path.join(ROOT, "expected_obligations.json"), "w") as f:
             json.dump(baseline_all, f, indent=1, sort_keys=True)
